@@ -24,6 +24,8 @@ from props import mini
 sys.path.insert(0, os.path.join(C.VERIF, "tools"))
 import c02_gen  # noqa: E402
 import c02_local as LOC  # noqa: E402
+import c02_flow as FLOW  # noqa: E402
+import c02_float as FLT  # noqa: E402
 
 ID = "C02"
 LEVEL = "exploration"
@@ -42,14 +44,19 @@ MANIFEST = {
                   "guard the C applies.  EXPLORED, not proved: the property itself.  The global passes (inline, cprop, cse, "
                   "emerge, emerge-rr, env, flow, dassign, deadvar, hfold, cast) are not modelled; they are decided only by "
                   "the differential run: generated MiniAldor programs (verified oracle) + the deterministic programs of "
-                  "lib/axllib/test + generated builtin-level programs, each at -Q0 versus levels 0-9, -O, every single pass "
+                  "lib/axllib/test + generated builtin-level programs + a data-flow family aimed at the global passes "
+                  "(tools/c02_flow.py: self-updates, copies, branches, bounded loops, early returns and re-used right-hand "
+                  "sides, with its own direct evaluator as oracle), each at -Q0 versus levels 0-9, -O, every single pass "
                   "-Q0 -Q<p>, every complement -Q9 -Qno-<p> and seeded random subsets.",
     "level_note": "Trusted: Coq kernel; extraction (ExtrOcamlBasic) + coq/Opt/driver.ml; tools/c02_gen.py (the statement "
                   "shapes it recognises are the constructors of coq/Opt/Ctl.v; an unrecognised statement becomes StUnknown and "
                   "the theorems stop checking); tools/c02_local.py (conversion of -Ffm units to model terms); the MiniAldor "
                   "oracle (C01); b-c04's translation of of_cfold.c; pre-built libaldor/axllib of /repo.  Not compared: the "
                   "interpreter's stack-trace lines and WHICH fault message a dying run prints (class fail either way).  Not "
-                  "modelled: C atof (only decimal numerals up to 7 digits), clustered option letters, statements and control "
+                  "modelled: FLOAT and big-integer operands of the peephole rules (C02_peep_float_rows_not_covered: the model "
+                  "gives them no value; the fast table used with -Qffold applies x-x=0, x/x=1, x*0=0, x=x ... to floats, wrong "
+                  "for NaN/inf/-0.0: decided by tools/c02_float.py and listed as peep:fast-float-table:<shape>), C atof "
+                  "(only decimal numerals up to 7 digits), clustered option letters, statements and control "
                   "flow in Fold/Peep (peepIf/peepSelect/peepCCall/peepEEnsure), float and big-integer rules, the peep-pending "
                   "flag.  One out-of-bounds read of of_peep.c (peepBValOpInfo[OpNonNeg/OpNonPos/OpId].arity) is modelled by "
                   "its observed value and re-checked by the tie on every run.",
@@ -951,7 +958,7 @@ def segments(out):
     the tag first, then whatever the call prints, then the value"""
     segs = []
     for line in out.splitlines():
-        m = re.match(r"(t\d+) ", line)
+        m = re.match(r"([td]\d+) ", line)
         if m or not segs:
             segs.append([m.group(1) if m else "head", line])
         else:
@@ -1119,6 +1126,134 @@ def check_local(rep, exe, model, tier):
     rep.cov["traces_validated_against_impl"] = rep.cov.get("traces_validated_against_impl", 0) + stats["programs"] * len(LOCAL_CFGS)
 
 
+# ====================================================================== the data-flow family (global passes)
+
+FLOW_CFGS = [["-Q1"], ["-Q2"], ["-Q3"], ["-Q5"], ["-Q2", "-Qno-cse"], ["-Q0", "-Qcse"], ["-Q0", "-Qcprop"], ["-Q0", "-Qdeadvar"],
+             ["-Q0", "-Qdassign"], ["-Q0", "-Qflow"], ["-Q0", "-Qemerge", "-Qenv"],
+             ["-Q0", "-Qcse", "-Qcprop", "-Qdeadvar", "-Qdassign", "-Qflow", "-Qpeep", "-Qcfold"], ["-Q2", "-Qno-inline"],
+             ["-Q3", "-Qno-cprop"]]
+
+
+def check_flow(rep, exe, tier):
+    """tools/c02_flow.py: functions made of self-updates, copies, branches, bounded loops, early returns and
+    re-use of the same right-hand sides - the shapes whose data-flow facts must be killed or kept across basic
+    blocks - at the builtin level, run at -Q0 and at FLOW_CFGS, compared with -Q0 AND with the direct evaluator."""
+    rng = C.rng("c02-flow")
+    nprog = 16 if tier == "quick" else 160
+    ctx = Ctx(exe, C.scratch("c02flow"))
+    progs = []
+    for _ in range(nprog):
+        funs = FLOW.gen_program(rng, 6)
+        src, exp = FLOW.render_program(funs)
+        progs.append((funs, src, exp))
+    jobs = [(i, c) for i in range(nprog) for c in [["-Q0"]] + FLOW_CFGS]
+    with concurrent.futures.ThreadPoolExecutor(C.NCPU) as ex:
+        res = list(ex.map(lambda j: behave(ctx, {"lib": "aldor", "src": progs[j[0]][1]}, j[1], timeout=20), jobs))
+    base = {i: b for (i, c), b in zip(jobs, res) if c == ["-Q0"]}
+    bad = []        # (program index, config, function name, behaviour)
+    n_q0_bad = 0
+    for (i, c), b in zip(jobs, res):
+        exp = {"cls": "ok", "out": progs[i][2]}
+        if same(b, exp):
+            continue
+        if b["cls"] == "timeout" and b.get("step") == "compile":
+            continue
+        if c == ["-Q0"]:
+            n_q0_bad += 1
+        sa, sb = segments(exp["out"]), segments(b["out"])
+        fn = next((x[0] for x, y in zip(sa, sb) if x != y), sa[min(len(sa), len(sb)) - 1][0] if sa and sb else "d0")
+        bad.append((i, c, fn, b))
+    seen, n_rep, more = set(), 0, []
+    for i, c, fn, b in bad:
+        funs = dict(progs[i][0])
+        if fn not in funs or (i, fn) in seen:
+            continue
+        seen.add((i, fn))
+        f = funs[fn]
+
+        def differs(g, c=c, fn=fn):
+            s, e = FLOW.render_program([(fn, g)])
+            o = behave(ctx, {"lib": "aldor", "src": s}, c, timeout=15)
+            if o["cls"] == "timeout" and o.get("step") == "compile":
+                return False
+            if same(o, {"cls": "ok", "out": e}):
+                return False
+            if c == ["-Q0"]:
+                return True
+            o0 = behave(ctx, {"lib": "aldor", "src": s}, ["-Q0"], timeout=15)
+            return same(o0, {"cls": "ok", "out": e})        # the unoptimised program agrees with the evaluator
+        if not differs(f):
+            more.append({"function": fn, "config": c, "note": "not reproducible with the function alone"})
+            continue
+        n_rep += 1
+        if n_rep > 3:
+            more.append({"function": "\n".join(FLOW.render_function(fn, f)), "config": c})
+            continue
+        g = FLOW.shrink(f, differs, 80 if tier == "quick" else 200)
+        s, e = FLOW.render_program([(fn, g)])
+        o = behave(ctx, {"lib": "aldor", "src": s}, c, timeout=15)
+        o0 = behave(ctx, {"lib": "aldor", "src": s}, ["-Q0"], timeout=15)
+        rep.violation("a generated data-flow function (self-updates / copies / branches / loops / re-used right-hand sides) behaves "
+                      "differently at `%s` than at -Q0 and than the direct evaluator (%s -> %s); %s"
+                      % (cfg_str(c), o0["cls"], o["cls"],
+                         "the optimised side is wrong" if same(o0, {"cls": "ok", "out": e}) else "the -Q0 run differs from the evaluator"),
+                      {"how_to_replay": "./check C02 --replay <this file>", "lib": "aldor", "src": s, "config": c,
+                       "function": "\n".join(FLOW.render_function(fn, g)), "expected": e, "q0": tail(o0), "observed": tail(o),
+                       "found_in_program_with": len(progs[i][0])},
+                      key="flow:%s:%s" % (FLOW.fhash(fn, g), cfg_str(c)))
+    if more:
+        rep.violation("%d more generated data-flow functions behave differently at some setting (the first 3 are reported shrunk)"
+                      % len(more), {"examples": more[:10]})
+    rep.add_cov(flow_programs=nprog, flow_functions=6 * nprog, flow_pairs=len(jobs), flow_configs=[cfg_str(c) for c in FLOW_CFGS],
+                flow_differences=len(bad), flow_q0_differs_from_evaluator=n_q0_bad)
+    rep.cov["traces_validated_against_impl"] = rep.cov.get("traces_validated_against_impl", 0) + len(jobs)
+
+
+# ====================================================================== float operands (peephole, fast table)
+
+FLOAT_CFGS = [["-Q1"], ["-Q2"], ["-Q3"], ["-Q0", "-Qpeep"], ["-Q0", "-Qffold"], ["-Q0", "-Qffold", "-Qpeep"],
+              ["-Q0", "-Qcfold", "-Qffold", "-Qpeep"], ["-Q2", "-Qno-ffold"]]
+
+
+def check_float(rep, exe, tier):
+    """tools/c02_float.py: one function per rule shape of the peephole tables at DFlo, applied to NaN, +-inf,
+    +-0.0, 1.0, -2.5 selected at run time.  The Coq model does not cover floats (C02_peep_float_rows_not_covered);
+    a shape whose result changes with the setting is reported under the fixed key peep:fast-float-table:<shape>."""
+    ctx = Ctx(exe, C.scratch("c02float"))
+    src, names = FLT.program()
+    cfgs = [["-Q0"]] + FLOAT_CFGS
+    with concurrent.futures.ThreadPoolExecutor(C.NCPU) as ex:
+        res = list(ex.map(lambda c: behave(ctx, {"lib": "aldor", "src": src}, c), cfgs))
+    base = res[0]
+    if base["cls"] != "ok":
+        rep.violation("the float-operand program does not run at -Q0 (%s)" % base["cls"], {"src": src, "q0": tail(base)}, no_input=True)
+        return
+    vals = [v[0] for v in FLT.VALUES]
+    by_shape = collections.OrderedDict()
+    for c, b in zip(cfgs[1:], res[1:]):
+        if b["cls"] != "ok":
+            by_shape.setdefault("<run>", []).append((cfg_str(c), "run ends with %s" % b["cls"], ""))
+            continue
+        for l0, l1 in zip(base["out"].splitlines(), b["out"].splitlines()):
+            if l0 != l1:
+                w = l0.split()
+                k = int(w[0][1:])
+                by_shape.setdefault(names[k], []).append((cfg_str(c), "x=%s y=%s: %s at -Q0" % (vals[int(w[1])], vals[int(w[2])], w[3]),
+                                                          l1.split()[-1]))
+    for shape, items in by_shape.items():
+        k = names.index(shape) if shape in names else -1
+        rep.violation("float operands: the rule shape `%s` gives another result at %s than at -Q0 (%d operand pairs; e.g. %s -> %s)"
+                      % (shape, sorted({i[0] for i in items}), len({i[1] for i in items}), items[0][1], items[0][2]),
+                      {"shape": shape, "function": FLT.SHAPES[k][2] if k >= 0 else None, "configs": sorted({i[0] for i in items}),
+                       "examples": items[:12], "src": src, "lib": "aldor", "config": items[0][0].split(),
+                       "how_to_replay": "./check C02 --replay <this file>  (lines `g%d <x index> <y index> <class>`; class = "
+                                        "zero? negative? positive? 1/r negative?, NaN = FFFF)" % k},
+                      key="peep:fast-float-table:%s" % shape)
+    rep.add_cov(float_shapes=len(names), float_operand_pairs=len(vals) ** 2, float_configs=[cfg_str(c) for c in FLOAT_CFGS],
+                float_shapes_differing=[s_ for s_ in by_shape])
+    rep.cov["traces_validated_against_impl"] = rep.cov.get("traces_validated_against_impl", 0) + len(cfgs)
+
+
 # ====================================================================== entry
 
 def run(rep, tier):
@@ -1148,6 +1283,8 @@ def run(rep, tier):
             check_local(rep, exe, model, tier)
         except C.BuildError as e:
             rep.violation("tie of the Fold/Peep models could not run: %s" % str(e)[:200], {"error": str(e)}, no_input=True)
+    check_flow(rep, exe, tier)
+    check_float(rep, exe, tier)
     differential(rep, tier, exe, G, model)
     if not ok and len(rep.violations) == n_viol0:
         okm, log = C.coq_make(TARGETS)
